@@ -68,6 +68,9 @@ func ZZ_C02_Vote() {
 	N := 1 + vrt.Uint64Below("N", 1<<56)
 	amtA := vrt.IntRange("amountA", big.NewInt(1<<24), big.NewInt(1<<30))
 	amtB := vrt.IntRange("amountB", big.NewInt(1<<24), big.NewInt(1<<30))
+	if vrt.Bool("amountB.above-2^64") { // a second fixed-length window: amounts that agree with A in their low 64 bits
+		amtB = new(big.Int).Add(amtB, new(big.Int).Lsh(big.NewInt(1), 64))
+	}
 	vrt.Assume(amtA.Cmp(amtB) != 0)
 	evA, evB, evC := zzDeposit(N, amtA), zzDeposit(N, amtB), zzDeposit(N+1, amtA)
 	var votes []string
@@ -82,7 +85,13 @@ func ZZ_C02_Vote() {
 		}
 	}
 	if len(votes) > 0 {
-		k.ZZSetVoteRecord(ctx, chain, evA, votes, false)
+		// the record may already have been observed (a late vote of a validator that is behind); an observed record
+		// at nonce N implies that the chain's last observed nonce has reached N
+		accepted := vrt.Bool("recordA.accepted")
+		if accepted {
+			vrt.Assume(L >= N)
+		}
+		k.ZZSetVoteRecord(ctx, chain, evA, votes, accepted)
 	}
 	// the message
 	signers := []sdk.AccAddress{orch, stranger}
@@ -128,6 +137,11 @@ func ZZ_C02_Vote() {
 	if rec == nil {
 		return
 	}
+	// the record found under the claim's (nonce, hash) holds the claimed event, not a different one at the same nonce
+	if held, uerr := types.UnpackEvent(rec.Event); uerr == nil {
+		dep, isDep := held.(*types.SendToHubEvent)
+		vrt.Check("c02.vote.record-holds-the-claimed-event", isDep && dep.EventNonce == ev.GetEventNonce() && dep.Amount.Equal(ev.(*types.SendToHubEvent).Amount))
+	}
 	me := vs[who].Oper.String()
 	cnt := 0
 	for _, v := range rec.Votes {
@@ -135,7 +149,7 @@ func ZZ_C02_Vote() {
 			cnt++
 		}
 	}
-	vrt.Assert("c02.vote.attributed-once", cnt == 1)
+	vrt.Check("c02.vote.attributed-once", cnt == 1) // Check: the C03 obligations below are independent of it
 	for i := range rec.Votes {
 		for j := i + 1; j < len(rec.Votes); j++ {
 			vrt.Assert("c02.vote.no-duplicate-voters", rec.Votes[i] != rec.Votes[j])
